@@ -510,6 +510,70 @@ theorem ola_empty_detect (hop? : Option Nat) (wnd : WndArg K) (normalize : Bool)
 
 end misc
 
+section stft_sum
+variable {K : Type} [Field K] [LT K] [DecidableLT K] [DecidableEq K]
+
+/-- **C09.4b** the wrapper as a whole, any block processing that keeps the block length: the
+output is the windowed hop-shifted sum (C09.1) of the processed windowed blocks (C09.4a) of the
+signal (C08), `m*hop + size - hop` samples, nothing raised. -/
+theorem stft_eq_spec (size hop : Nat) (hs : 0 < size) (h0 : 0 < hop) (hh : hop ≤ size)
+    (hop? : Option Nat) (hhop : hop?.getD size = hop)
+    (wa : WndArg K) (wa? : Option (List K)) (hwa : resolveWndStft size wa = .ok wa?)
+    (st : Stages K) (hlen : ∀ b : List K, b.length = size → (chainOf st size b).length = size)
+    (c : OlaCall K) (hcs : c.size? = some size) (hch : c.hop?.getD size = hop)
+    (ws? : Option (List K)) (hws : resolveWnd size c.wnd = .ok ws?)
+    (hwl : ∀ w, ws? = some w → w.length = size) (x : List K) :
+    (stftRun false size hop? wa st (some c) x).out =
+      olaSpec (gainSpec size hop c.normalize ws?) (wndSpec size ws?) size hop
+        ((blocks size hop 0 x).map fun B => chainOf st size (windowed wa? B)) ∧
+    (stftRun false size hop? wa st (some c) x).err = none ∧
+    (stftRun false size hop? wa st (some c) x).blocks = none := by
+  have hwal : ∀ w, wa? = some w → w.length = size := fun w e =>
+    resolveWndStft_length size wa w (e ▸ hwa)
+  simp only [stftRun, Bool.false_eq_true, if_false, blkGen, hwa, hhop, process_funcs, overlapAddFrom]
+  have hrow : ∀ B ∈ (blocks size hop 0 x).map (fun B => chainOf st size (windowed wa? B)),
+      B.length = size := by
+    intro B hB
+    obtain ⟨B0, hB0, rfl⟩ := List.mem_map.1 hB
+    rw [ALV.Props.C08.blocks_eq_spec size hop hs h0] at hB0
+    exact hlen _ (windowed_length size wa? hwal B0 (blocksSpec_row_length size hop hs h0 (0 : K) x B0 hB0))
+  have h := ola_eq_spec size hop hs h0 hh _ hrow c.size? c.hop? (by rw [hcs]; rfl) hch c.wnd ws? hws
+    hwl c.normalize
+  exact ⟨h.1, h.2, trivial⟩
+
+end stft_sum
+
+section finset
+variable {K : Type} [CommSemiring K]
+
+/-- the specification's Σ is Mathlib's `Finset.sum` over the block numbers -/
+theorem olaAt_eq_sum (g : K) (w : List K) (size h : Nat) (Bs : List (List K)) (n : Nat) :
+    olaAt g w size h Bs n = ∑ k ∈ Finset.range Bs.length,
+      if k * h ≤ n ∧ n - k * h < size then
+        g * (w.getD (n - k * h) 0 * (Bs.getD k []).getD (n - k * h) 0) else 0 := by
+  unfold olaAt
+  exact sumTo_eq_sum _ _
+
+end finset
+
+section rect
+variable {K : Type} [Field K] [LinearOrder K] [IsStrictOrderedRing K]
+
+/-- **C09.2b** "1/ceil(size/h) when no window is given" is the gain of the rectangular window:
+the largest hop-strided sum of `size` ones is `ceil(size/hop)`, so giving no window and giving
+`[1]*size` are the same specification. -/
+theorem gain_nowindow_is_rect (size hop : Nat) (hs : 0 < size) (h0 : 0 < hop) :
+    maxStrided (List.replicate size (1 : K)) hop = (((size + hop - 1) / hop : Nat) : K) ∧
+    gainSpec size hop true (none : Option (List K)) =
+      gainSpec size hop true (some (List.replicate size (1 : K))) ∧
+    wndSpec size (none : Option (List K)) = wndSpec size (some (List.replicate size (1 : K))) := by
+  refine ⟨maxStrided_rect size hop h0, ?_, rfl⟩
+  have hc : 0 < (size + hop - 1) / hop := Nat.div_pos (by omega) h0
+  have hne : (((size + hop - 1) / hop : Nat) : K) ≠ 0 := Nat.cast_ne_zero.2 (by omega)
+  simp only [gainSpec, if_true, maxStrided_rect size hop h0, hne, if_false]
+
+end rect
+
 /-- non-vacuity: two blocks of 3 with hop 2 and a non-trivial window -/
 example : (olaCore 3 2 (some [1, 2, 3]) [[1, 10, 100], [1000, 10000, 100000]] : Out Int).out
     = [1, 20, 1300, 20000, 300000] := by decide
